@@ -8,10 +8,46 @@ use std::cell::RefCell;
 use std::error::Error;
 use std::ffi::OsString;
 use std::io::{stderr, Write};
-use std::path::Path;
+use std::path::{Path, PathBuf};
 use std::process::Command;
 
 use super::{Matcher, MatcherIO, WalkEntry};
+
+/// For -execdir: the directory to run in and the name of the entry from there,
+/// taken from the path as spelled.  Trailing slashes are ignored and a final
+/// "." or ".." is a name like any other ("dir/." is "./." in "dir": going
+/// through Path::components() would make it "./dir" in the directory above,
+/// which names the link and not the directory when "dir" is a symbolic link).
+/// A path made of slashes only is run from itself and named as it is.
+#[cfg(unix)]
+pub fn split_for_execdir(path: &Path) -> (PathBuf, PathBuf) {
+    use std::ffi::OsStr;
+    use std::os::unix::ffi::OsStrExt;
+
+    let bytes = path.as_os_str().as_bytes();
+    let Some(last) = bytes.iter().rposition(|&b| b != b'/') else {
+        return (path.to_path_buf(), path.to_path_buf());
+    };
+    let trimmed = &bytes[..=last];
+    let (dir, name) = match trimmed.iter().rposition(|&b| b == b'/') {
+        Some(0) => (&trimmed[..1], &trimmed[1..]),
+        Some(slash) => (&trimmed[..slash], &trimmed[slash + 1..]),
+        None => (&trimmed[..0], trimmed),
+    };
+    (
+        PathBuf::from(OsStr::from_bytes(dir)),
+        Path::new(".").join(OsStr::from_bytes(name)),
+    )
+}
+
+#[cfg(not(unix))]
+pub fn split_for_execdir(path: &Path) -> (PathBuf, PathBuf) {
+    let name = match path.components().next_back() {
+        Some(last) => Path::new(".").join(last.as_os_str()),
+        None => Path::new(".").join(path),
+    };
+    (path.parent().unwrap_or(path).to_path_buf(), name)
+}
 
 enum Arg {
     FileArg(Vec<OsString>),
@@ -53,18 +89,13 @@ impl SingleExecMatcher {
 
 impl Matcher for SingleExecMatcher {
     fn matches(&self, file_info: &WalkEntry, _: &mut MatcherIO) -> bool {
-        let mut command = Command::new(&self.executable);
-        let path_to_file = if self.exec_in_parent_dir {
-            // The last component as spelled: also ".." or "." when the path ends in one
-            // (Path::file_name() is None for those), so that the argument names the
-            // entry from its parent directory.
-            match file_info.path().components().next_back() {
-                Some(last) => Path::new(".").join(last.as_os_str()),
-                None => Path::new(".").join(file_info.path()),
-            }
+        let (dir, path_to_file) = if self.exec_in_parent_dir {
+            let (dir, name) = split_for_execdir(file_info.path());
+            (Some(dir), name)
         } else {
-            file_info.path().to_path_buf()
+            (None, file_info.path().to_path_buf())
         };
+        let mut command = Command::new(&self.executable);
 
         for arg in &self.args {
             match *arg {
@@ -72,19 +103,9 @@ impl Matcher for SingleExecMatcher {
                 Arg::FileArg(ref parts) => command.arg(parts.join(path_to_file.as_os_str())),
             };
         }
-        if self.exec_in_parent_dir {
-            match file_info.path().parent() {
-                None => {
-                    // Root paths like "/" have no parent.  Run them from the root to match GNU find.
-                    command.current_dir(file_info.path());
-                }
-                Some(parent) if parent == Path::new("") => {
-                    // Paths like "foo" have a parent of "".  Avoid chdir("").
-                }
-                Some(parent) => {
-                    command.current_dir(parent);
-                }
-            }
+        // Paths like "foo" are in the current directory: avoid chdir("").
+        if let Some(dir) = dir.filter(|dir| !dir.as_os_str().is_empty()) {
+            command.current_dir(dir);
         }
         match command.status() {
             Ok(status) => status.success(),
@@ -149,35 +170,20 @@ impl MultiExecMatcher {
 
 impl Matcher for MultiExecMatcher {
     fn matches(&self, file_info: &WalkEntry, matcher_io: &mut MatcherIO) -> bool {
-        let path_to_file = if self.exec_in_parent_dir {
-            // The last component as spelled: also ".." or "." when the path ends in one
-            // (Path::file_name() is None for those), so that the argument names the
-            // entry from its parent directory.
-            match file_info.path().components().next_back() {
-                Some(last) => Path::new(".").join(last.as_os_str()),
-                None => Path::new(".").join(file_info.path()),
-            }
+        let (dir, path_to_file) = if self.exec_in_parent_dir {
+            let (dir, name) = split_for_execdir(file_info.path());
+            (Some(dir), name)
         } else {
-            file_info.path().to_path_buf()
+            (None, file_info.path().to_path_buf())
         };
         let mut command = self.command.borrow_mut();
         let command = command.get_or_insert_with(|| self.new_command());
 
         // Build command, or dispatch it before when it is long enough.
         if command.try_arg(&path_to_file).is_err() {
-            if self.exec_in_parent_dir {
-                match file_info.path().parent() {
-                    None => {
-                        // Root paths like "/" have no parent.  Run them from the root to match GNU find.
-                        command.current_dir(file_info.path());
-                    }
-                    Some(parent) if parent == Path::new("") => {
-                        // Paths like "foo" have a parent of "".  Avoid chdir("").
-                    }
-                    Some(parent) => {
-                        command.current_dir(parent);
-                    }
-                }
+            // Paths like "foo" are in the current directory: avoid chdir("").
+            if let Some(dir) = dir.filter(|dir| !dir.as_os_str().is_empty()) {
+                command.current_dir(dir);
             }
             self.run_command(command, matcher_io);
 
